@@ -588,6 +588,22 @@ fn null_optimization(sexp: Rc<SExp>, spine: bool) -> (bool, Rc<SExp>) {
     (false, sexp)
 }
 
+// Apply null_optimization to generated code (an expression, as opposed to the
+// operand list that null_optimization's spine argument describes).  Code that
+// is itself a quoted constant is data: none of it is evaluated, so it is left
+// alone.
+pub fn null_optimization_of_code(code: Rc<SExp>) -> (bool, Rc<SExp>) {
+    if let SExp::Cons(_, a, _) = code.borrow() {
+        if let SExp::Atom(_, name) = a.atomize() {
+            if name == vec![1] || name == b"q" {
+                return (false, code);
+            }
+        }
+    }
+
+    null_optimization(code, true)
+}
+
 #[test]
 fn test_null_optimization_basic() {
     let loc = Srcloc::start("*test*");
